@@ -126,6 +126,16 @@ def callee_shape(node: ast.AST) -> Optional[str]:
     return out
 
 
+def _x(value: ast.AST, call: ast.Call) -> ast.AST:
+    """Argument value with single-assignment pure locals inlined (a value that was merely given a name)."""
+    if isinstance(value, ast.Name) and hasattr(call, "_parent"):
+        try:
+            return _expand_test(value, call, any_pure=True)
+        except Exception:  # pragma: no cover
+            return value
+    return value
+
+
 def kwarg(call: ast.Call, name: str) -> Optional[ast.AST]:
     for k in call.keywords:
         if k.arg == name:
@@ -171,7 +181,7 @@ def _terminates(body: Sequence[ast.stmt]) -> bool:
 Guard = Tuple[ast.AST, bool]
 
 
-def _expand_test(test: ast.AST, at: ast.AST) -> ast.AST:
+def _expand_test(test: ast.AST, at: ast.AST, any_pure: bool = False) -> ast.AST:
     """Inline (a) local names bound exactly once to a pure boolean expression and (b) zero-argument
     `self.helper()` calls whose method body is a single `return <expr>`, so that a guard that was
     merely given a name (local or helper) is analysed as the expression it stands for."""
@@ -202,7 +212,11 @@ def _expand_test(test: ast.AST, at: ast.AST) -> ast.AST:
                     helpers[m.name] = body[0].value
 
     def pure_bool(e: ast.AST) -> bool:
-        return isinstance(e, (ast.BoolOp, ast.Compare, ast.UnaryOp)) and not any(isinstance(x, (ast.Await, ast.NamedExpr)) for x in ast.walk(e))
+        if any(isinstance(x, (ast.Await, ast.NamedExpr, ast.Yield, ast.YieldFrom)) for x in ast.walk(e)):
+            return False
+        if any_pure:
+            return not isinstance(e, (ast.Name, ast.Constant, ast.List, ast.Dict, ast.Set, ast.ListComp, ast.DictComp))
+        return isinstance(e, (ast.BoolOp, ast.Compare, ast.UnaryOp))
 
     class T(ast.NodeTransformer):
         def visit_Name(self, n: ast.Name):
